@@ -30,7 +30,8 @@ META = {
             "connections by cause) reached with histories of up to 13 events over the alphabet user {alice, "
             "the empty user name} x service {ssh-connection, other} x {none->fail, password->fail/partial/success, publickey "
             "probe} plus pipelined bursts (username switch, extra credentials and a second service in flight "
-            "behind a failing request). Dimension 'path that produced each failure': next to the request path "
+            "behind a failing request), key re-exchanges by either side and a repeated SERVICE_REQUEST for ssh-userauth "
+            "as events at any position. Dimension 'path that produced each failure': next to the request path "
             "(none, password) a failed attempt is also produced by a keyboard-interactive request the application "
             "refuses outright, by an INFO_RESPONSE the application refuses (after a query or unsolicited; also in "
             "flight behind a failing request), and by a gssapi-keyex request without a key-exchange GSS context "
@@ -99,6 +100,8 @@ def alphabet(tier):
             ("burst", (req(a, SC, PW, "F"), ("iresp", "S")))]
     # dimension "key re-exchange as an event": either side re-keys the connection, at any position of the history
     evs += list(A.REKEY_EVENTS)
+    # dimension "service requested again": a second SERVICE_REQUEST for ssh-userauth at any position of the history
+    evs += [("rekey", "svcreq")]
     b = users[1]
     if tier == "thorough":
         for u in users[:2]:
@@ -207,6 +210,9 @@ def judge(hist, obs, acc):
         if o.get("rekey") == "ok":
             acc.count("re_exchanges_completed")
             acc.nt(("rekey", ev[1], prev["user"] is None, prev["fails"], prev["ah_authed"]))
+        elif o.get("rekey") == "svc":
+            acc.count("service_requested_again")
+            acc.nt(("svcreq", prev["user"] is None, prev["fails"], prev["ah_authed"], o["active"]))
         elif prev["active"] and prev.get("client_alive"):
             raise RuntimeError("C16 harness: re-exchange on a live connection did not complete: %r after %r"
                                % (o.get("rekey"), hist))
